@@ -2374,6 +2374,11 @@ TARGETS = [
         Fn("compile_alt", "py_compile_alt", [("ranking_function", "preocf"), ("revision_conditionals", ("list", "cond"))],
            locals_={"vMin": ("dict", ("list", TRIPLE)), "fMin": ("dict", ("list", TRIPLE)), "acc_list": ("list", "int"), "rej_list": ("list", "int")}),
     ]),
+    dict(out="SrcCrevFix", file="inference/c_revision.py", requires=["SrcC", "SrcCrev"], extra_imports=["PyInt"], funcs=[
+        # translate_to_csp once more, with a dictionary of fixed gamma- values (the configuration of the recorded finding of C19)
+        Fn("translate_to_csp", "py_translate_to_csp_fixed", [("compilation", ("tuple", (("dict", ("list", TRIPLE)), ("dict", ("list", TRIPLE))))), ("gamma_plus_zero", "bool"),
+                                                              ("fixed_gamma_plus", "none"), ("fixed_gamma_minus", ("dict", "int"))]),
+    ]),
     dict(out="SrcCrevM", file="inference/c_revision_model.py", requires=["SrcCond", "SrcOcf"], extra_imports=["PyInt"], funcs=[
         Fn("_literal_info", "py_cm_literal_info", [("node", "form")], ret=("opt", ("tuple", ("int", "int")))),
         Fn("_extract_cond_masks", "py_cm_extract_cond_masks", [("cond", "cond"), ("sig_index", ("dict", "int"))], ret=("opt", ("tuple", ("int", "int", "int", "int")))),
